@@ -204,6 +204,34 @@ theorem rows_eq_history (h : List Exchange) : afterDisconnect (runAll h) = specR
   refine rows_eq_history_any_schedule h _ ?_ hk.1 hk.2
   simp
 
+/-- **`join()` returns after any finite fault pattern.**  From any state of the writer with nothing in flight and a
+    consistent `join()` counter: give every queued row its own number of failing `execute` attempts and failing `commit`
+    attempts (`faults`, one pair per row); when the writer has worked through them the queue is empty, the counter is zero
+    (`join()` returns), the table holds the old rows followed by the queued rows in queue order, once each, and the number of
+    "Retrying" warnings is the number of injected failures. -/
+theorem join_returns_after_finite_faults {α : Type} (w : Writer α) (hi : w.inflight = none) (hc : w.Counted)
+    (faults : List (Nat × Nat)) (hl : faults.length = w.queue.length) :
+    let w' := w.exec (faults.flatMap fun f => rowSched f.1 f.2)
+    w'.unfinished = 0 ∧ w'.queue = [] ∧ w'.inflight = none ∧ w'.db = w.db ++ w.queue ∧
+    w'.retries = w.retries + (faults.map fun f => f.1 + f.2).sum := by
+  obtain ⟨h1, h2, h3, h4, h5⟩ := Writer.exec_drain w hi faults hl
+  refine ⟨?_, h1, h2, h3, h5⟩
+  rw [h4]
+  unfold Writer.Counted at hc
+  simp [hc, hi]
+
+/-- ... and does not return while the writes keep failing (the `TODO` in `_executor_func` / `disconnect`): failed attempts
+    never lower the counter `join()` waits for -/
+theorem join_blocks_while_writes_fail {α : Type} (w : Writer α) (r : α) (hi : w.inflight = some r) (hc : w.Counted) (k m : Nat) :
+    ((w.exec (List.replicate k .retry)).exec (List.replicate m .commitFail)).unfinished = w.unfinished ∧ 0 < w.unfinished := by
+  constructor
+  · rw [Writer.exec_retries w r hi k]
+    rcases Nat.eq_zero_or_pos m with hm | hm
+    · subst hm; simp [Writer.exec]
+    · rw [Writer.exec_commitFails _ r (by simpa using hi) m hm]
+  · unfold Writer.Counted at hc
+    simp [hc, hi]
+
 /-- `join()` returns (counter of unfinished tasks is zero) exactly when nothing is queued or in flight — under every
     schedule, write failures with re-queueing included -/
 theorem join_waits_for_all (h : List Exchange) (sched : List Choice) :
